@@ -103,8 +103,16 @@ def dump_and_model(prog, cfg, work, seeds, mode="both", timeout=900):
         return dump, mod, "TIMEOUT: travdump (the real pipeline + traversal of every entry point) did not return within %d s" % timeout
     if rc != 0:
         return dump, mod, "travdump failed (rc %d): %s" % (rc, out[-1500:])
-    rc, mout, merr = vlib.sh2([os.path.join(vlib.BIN, "travmodel"), "-seeds", str(seeds), "-fuel", str(FUEL), "-mode", mode, dump],
-                              timeout=timeout)
+    for attempt in range(3):
+        try:
+            rc, mout, merr = vlib.sh2([os.path.join(vlib.BIN, "travmodel"), "-seeds", str(seeds), "-fuel", str(FUEL), "-mode", mode, dump],
+                                      timeout=timeout)
+            break
+        except OSError:            # the binary is being replaced by a concurrent build of another check
+            if attempt == 2:
+                raise
+            import time
+            time.sleep(5)
     open(mod, "w").write(mout)
     if rc != 0:
         return dump, mod, "travmodel failed (rc %d): %s" % (rc, merr[-1500:])
